@@ -297,11 +297,10 @@ Definition invoke_named (w : world) (faults : step -> bool) (fl : flags) (top_na
   let d1 := rs w d in                                               (* removeStaleMainfile(inv.Dir) *)
   match lookup d1 magefilesDir with
   | Some (Dir sub) =>
-      let sub1 := rs w sub in                                       (* removeStaleMainfile(inv.Dir/magefiles) *)
-      let d2 := set magefilesDir (Dir sub1) d1 in
       if orig_has_files
-      then invoke_dir w faults (with_mfdir fl top_named) d2       (* warning, inv.Dir = originalDir *)
-      else let '(sub2, c) := invoke_dir w faults (with_mfdir fl true) sub1 in
+      then invoke_dir w faults (with_mfdir fl top_named) d1       (* warning, inv.Dir = originalDir: magefiles/ is not touched *)
+      else let sub1 := rs w sub in                                  (* removeStaleMainfile(inv.Dir/magefiles), since 62b109f only here *)
+           let '(sub2, c) := invoke_dir w faults (with_mfdir fl true) sub1 in
            (set magefilesDir (Dir sub2) d1, c)
   | _ => invoke_dir w faults (with_mfdir fl top_named) d1
   end.
@@ -312,13 +311,28 @@ Definition invoke (w : world) (faults : step -> bool) (fl : flags) (orig_has_fil
   let d1 := rs w d in                                               (* removeStaleMainfile(".") *)
   match lookup d1 magefilesDir with
   | Some (Dir sub) =>
-      let sub1 := rs w sub in                                       (* removeStaleMainfile("magefiles") *)
-      let d2 := set magefilesDir (Dir sub1) d1 in
       if orig_has_files
-      then invoke_dir w faults (with_mfdir fl false) d2           (* warning, inv.Dir = originalDir *)
-      else let '(sub2, c) := invoke_dir w faults (with_mfdir fl true) sub1 in
+      then invoke_dir w faults (with_mfdir fl false) d1           (* warning, inv.Dir = originalDir *)
+      else let sub1 := rs w sub in                                  (* removeStaleMainfile("magefiles") *)
+           let '(sub2, c) := invoke_dir w faults (with_mfdir fl true) sub1 in
            (set magefilesDir (Dir sub2) d1, c)
   | _ => invoke_dir w faults (with_mfdir fl false) d1
+  end.
+
+(* Invoke before commit 62b109f: the stale file in magefiles/ was removed as soon as that directory
+   existed, also when the invocation then went on in the directory it was given *)
+Definition invoke_named_before_62b109f (w : world) (faults : step -> bool) (fl : flags) (top_named orig_has_files : bool)
+  (d : fs) : fs * nat :=
+  let d1 := rs w d in
+  match lookup d1 magefilesDir with
+  | Some (Dir sub) =>
+      let sub1 := rs w sub in
+      let d2 := set magefilesDir (Dir sub1) d1 in
+      if orig_has_files
+      then invoke_dir w faults (with_mfdir fl top_named) d2
+      else let '(sub2, c) := invoke_dir w faults (with_mfdir fl true) sub1 in
+           (set magefilesDir (Dir sub2) d1, c)
+  | _ => invoke_dir w faults (with_mfdir fl top_named) d1
   end.
 
 (* ------------------------------------------------------------------------------------------ *)
